@@ -249,7 +249,7 @@ func decodeXRefSection(xref map[uint32]*xRefEntry, s *scanner, start, end uint32
 		}
 
 		// fix an error seen in some PDF files
-		if i == start && start == 1 && a == 0 && b == maxGeneration {
+		if i == start && start == 1 && a == 0 && b == maxGeneration && xref[0] == nil {
 			offByOne = 1
 		}
 
